@@ -3,7 +3,9 @@
 import json, os, re, shutil, subprocess, sys
 pid, n = sys.argv[1], sys.argv[2]
 chk = sys.argv[3] if len(sys.argv) > 3 else pid
-src = f"/tmp/seed-{pid}/out/{n}"
+sfx = os.environ.get("SEED_SUFFIX", "")
+off = int(os.environ.get("SEED_OFFSET", "0"))
+src = f"/tmp/seed-{pid}{sfx}/out/{n}"
 r = subprocess.run(["/verif/tools/seedcheck.sh", pid, n, chk], capture_output=True, text=True)
 out = r.stdout + r.stderr
 m = re.search(r"demo without patch rc=(\d+) ; with patch rc=(\d+)", out)
@@ -18,7 +20,7 @@ print(f"{pid}-{n}: confirmed={confirmed} suite_ok={suite_ok} check={verdict} {ke
 if not (confirmed and suite_ok):
     print(out[-3000:])
     sys.exit(1)
-dst = f"/verif/seeded/{pid}-{n}"
+dst = f"/verif/seeded/{pid}-{int(n)+off}"
 os.makedirs(dst, exist_ok=True)
 shutil.copy(f"{src}/patch.diff", dst)
 for f in os.listdir(src):
